@@ -1,6 +1,6 @@
 #!/bin/sh
 # tools/confirm_mut.sh <PROP> <mK> "<detected-by>"  -- confirm a seeded change in a scratch worktree and store it under /verif/seeded/
-P=$1; M=$2; DET=$3
+P=$1; M=$2; DET=$3; PROP=${4:-$1}
 SRC=/tmp/mut_$P/$M
 WT=/tmp/wt_confirm_$P$M
 ID=${P}_$M
@@ -26,7 +26,7 @@ cp $SRC/patch.diff $SRC/demo.py /verif/seeded/$ID/
 cp $SRC/notes.md /verif/seeded/$ID/notes.md 2>/dev/null
 python3 - <<PY
 import json
-meta={"id":"$ID","property":"$P","source":"independent sub-agent given only the property text and a scratch worktree",
+meta={"id":"$ID","property":"$PROP","source":"independent sub-agent given only the property text and a scratch worktree",
  "base_commit":"$(git -C /repo log --format=%h -1)",
  "needs_to_manifest": open("$SRC/notes.md").read()[:1500],
  "confirmed":{"demo_exit_clean":$clean_demo,"demo_exit_mutated":$mut_demo,"baseline_tests_passing_with_change":"$suite"},
